@@ -236,9 +236,10 @@ def finish(res, tier, seed, t0):
         "wall_s": round(wall, 3),
         "violations": len(viol),
     }
-    os.makedirs(os.path.join(VERIF, "evidence"), exist_ok=True)
-    with open(os.path.join(VERIF, "evidence", "%s.json" % res.prop), "w") as fh:
-        json.dump(ev, fh, indent=1, default=str)
+    if not os.environ.get("VERIF_NO_EVIDENCE"):
+        os.makedirs(os.path.join(VERIF, "evidence"), exist_ok=True)
+        with open(os.path.join(VERIF, "evidence", "%s.json" % res.prop), "w") as fh:
+            json.dump(ev, fh, indent=1, default=str)
     print("%s %s: %d obligations, %d rule instances, %d known finding(s), "
           "%d violation(s), %.1fs" % (res.prop, tier, res.obligations,
                                       sum(res.instances.values()), len(kf),
